@@ -13,6 +13,14 @@ Three exhaustive enumerations against the real engine (oracles: models/limits.py
     one-shot iterator} with sizes {N-1, N, N+1} per level x N x the 4 output
     conversion combinations: `$` raises CollectionTooLargeException iff some
     level exceeds N, otherwise returns the canonical image.
+(r) result kinds: every kind of collection a function can hand back - yaql list / tuple, set / frozenset, dict,
+    the keys / values / items views of a dictionary, iterator / generator, and raw host list, set, dict, views,
+    deque, range returned by a host function - of N-1, N, N+1 elements, as the result itself and inside 1..2
+    containers built by the expression ([X], {w => X}, set(X) where X can be a set member), the leaf coming from
+    the input data `$`, from a context variable, from literals of the expression, or from a host function;
+    x N x the 4 conversion combinations.  Oracle: CollectionTooLargeException iff the leaf (or a pair of an
+    items view, or a wrapper) exceeds N, otherwise the canonical image (dictionaries are never size-checked
+    while they are passed around: `$.keys()` over an oversized input dictionary reaches the finaliser).
 (b') dict keys: a dict whose KEY is a collection (tuple of N-1, N, N+1 elements, one-shot iterator,
     endless source) inside 0..2 containers, as host data and built by an expression, under the 4
     conversion combinations and the legacy engine (tuple keys survive when tuples are not converted).
@@ -48,7 +56,9 @@ RULE = ('(a) one case per distinct (call text, source flavour, N): call texts ar
         'when the source was pulled at least once; (b) one case per (shape, N, conversion options), '
         'non-trivial when in domain (no unhashable set member, which is C10); (c) one case per '
         '(chain, base size, Q), non-trivial when at least one tapped payload ran; (b\') one case per (key shape, '
-        'N, engine, form); (w) one case per (subset case, way of supplying the options)')
+        'N, engine, form); (w) one case per (subset case, way of supplying the options); (r) one case per '
+        '(wrappers, result kind, size, origin of the leaf, N, conversion options), non-trivial when the value can be '
+        'built (set() needs hashable non-iterator members) and its image needs no unhashable set member (C10)')
 ASSUMPTIONS = ['"own size" is sys.getsizeof(value, 0), the accounting the options document; memory held by '
                'nested or lazily produced objects is outside the statement',
                'a lazy sequence is "handed to a library function" when it is bound directly to a parameter '
@@ -63,8 +73,11 @@ BOUNDS = {
              '(c) chains of <= 2 steps x base sizes {0,1,2,10,1000} x Q in {200,1000,10000} (+ no-quota control), '
              'chains whose unconstrained length exceeds 2e6 are outside the space; '
              "(b') 13 wrappings x 7 keys x N x 6 engines x {data, expression}; (w) hand-written templates + every 10th call "
-             'text x N x 2 tightening ways, shapes of depth <= 2 x 3 ways, 1-step chains x Q x 3 ways',
-    'thorough': '(a) N in {0,1,2,5,10,100}; (b) N in {-1,0,1,2,5,10,100}; (c) chains of <= 3 steps',
+             'text x N x 2 tightening ways, shapes of depth <= 2 x 3 ways, 1-step chains x Q x 3 ways; '
+             '(r) 10 result kinds from data / variable, 7 from literals, 12 raw from a host function x sizes '
+             '{N-1,N,N+1} x 0..2 wrappers of {list, dict value, set member} x N in {-1,0,1,2,5} x 4 conversion combos',
+    'thorough': '(a) N in {0,1,2,5,10,100}; (b) N in {-1,0,1,2,5,10,100}; (c) chains of <= 3 steps; '
+                '(r) 0..3 wrappers, N in {-1,0,1,2,5,10,100}',
 }
 JOB_LIMIT = {'quick': 600, 'thorough': 3600}
 
@@ -527,6 +540,96 @@ def job_shapes(tier, n, k, nchunks):
 
 
 # ---------------------------------------------------------------------------
+# (r) result kinds: what functions return (views, sets, iterators, raw host collections), from oversized inputs too
+# ---------------------------------------------------------------------------
+RK_DEPTH = {'quick': 2, 'thorough': 3}
+_rk = {}
+
+
+def _rk_context():
+    """A child of the standard context with mk(), a host function returning the raw object of the case."""
+    if 'ctx' not in _rk:
+        ctx = yq.root().create_child_context()
+        ctx.register_function(lambda: _rk['value'], name='mk')
+        _rk['ctx'] = ctx
+    return _rk['ctx'].create_child_context()
+
+
+def run_result_kind(spec, n, t2l, s2l):
+    _wrappers, kind, size, origin = spec
+    opts = {'yaql.limitIterators': n, 'yaql.convertTuplesToLists': t2l, 'yaql.convertSetsToLists': s2l}
+    ctx = _rk_context()
+    data = yq.NO_VALUE
+    if origin == 'data':
+        data = M.rk_input(kind, size)
+    elif origin == 'var':
+        ctx['v'] = yutils.convert_input_data(M.rk_input(kind, size))
+    elif origin == 'host':
+        _rk['value'] = M.rk_host(kind, size)
+    try:
+        return ('v', yq.parse(M.rk_text(spec), opts).evaluate(data=data, context=ctx))
+    except Exception as e:
+        return ('e', type(e).__name__, str(e)[:120])
+
+
+def judge_result_kind(spec, n, t2l, s2l, obs):
+    """'ood' | None | (key, detail)"""
+    wrappers, kind, size, origin = spec
+    text = M.rk_text(spec)
+    what = '%s (result kind %s of %d elements, leaf from %s)' % (text if len(text) <= 80 else text[:77] + '...', kind, size, origin)
+    if M.rk_too_large(spec, n):
+        if obs[0] == 'e' and obs[1] == 'CollectionTooLargeException':
+            return None
+        part = ('result-kind=%s' % kind if size > n or (kind == 'items' and size and n < 2)
+                else 'wrapper=%s' % wrappers[0])
+        return ('oversized-result-accepted ' + part,
+                '%s with limitIterators=%d: expected CollectionTooLargeException, observed %r' % (what, n, _short(obs)))
+    if M.rk_unhashable_final(spec, t2l, s2l):
+        return 'ood'
+    if obs[0] == 'e':
+        return ('spurious-refusal result-kind=%s' % kind,
+                '%s with limitIterators=%d: nothing exceeds the limit, observed %r' % (what, n, obs))
+    img = M.rk_image(spec, t2l, s2l)
+    if not M.same_image(obs[1], img):
+        return ('wrong-image result-kind=%s' % kind, '%s: expected %r observed %r' % (what, img, obs[1]))
+    return None
+
+
+def job_result_kinds(tier, n, origin):
+    _safety()
+    res = Result()
+    for spec in M.rk_specs(n, RK_DEPTH[tier]):
+        if spec[3] != origin:
+            continue
+        for t2l, s2l in OPTION_COMBOS:
+            case = {'kind': 'result-kind', 'wrappers': list(spec[0]), 'leaf': spec[1], 'size': spec[2],
+                    'origin': origin, 'n': n, 't2l': t2l, 's2l': s2l}
+            core.CURRENT_CASE[0] = case
+            res.case(('result-kind', spec, n, t2l, s2l))
+            if not M.rk_buildable(spec):
+                res.out_of_domain += 1
+                res.outcomes['result-kind ood: not a member set() can hold (unhashable, or an iterator it flattens)'] += 1
+                continue
+            obs = run_result_kind(spec, n, t2l, s2l)
+            res.evaluations += 1
+            res.transitions += 1
+            verdict = judge_result_kind(spec, n, t2l, s2l, obs)
+            if verdict == 'ood':
+                res.out_of_domain += 1
+                res.outcomes['result-kind ood: unhashable member of a kept set (C10)'] += 1
+                continue
+            res.nontrivial += 1
+            res.outcomes['result-kind %s %s' % (spec[1], 'value' if obs[0] == 'v' else obs[1])] += 1
+            if verdict:
+                res.fail(verdict[0], case, verdict[1], size=len(spec[0]) * 1000 + max(n, 0) * 10 + spec[2])
+    if n == 2 and origin == 'data':
+        spec = (('list',), 'keys', 3, 'data')
+        res.sample({'text': M.rk_text(spec), 'data': 'dict of 3 entries', 'limitIterators': 2,
+                    'observed': repr(_short(run_result_kind(spec, 2, True, False)))})
+    return res
+
+
+# ---------------------------------------------------------------------------
 # (b') collections used as dict keys (tuple keys survive when tuples are not converted: option or legacy engine)
 # ---------------------------------------------------------------------------
 KEY_ENGINES = [(t, s, False) for t, s in OPTION_COMBOS] + [(False, False, True), (False, True, True)]   # (t2l, s2l, legacy)
@@ -934,6 +1037,9 @@ def jobs(tier, seed):
         out.append(('key-shapes-N%d' % n, 'job_keys', (n,)))
     for part in ('limit', 'shape', 'quota'):
         out.append(('ways-' + part, 'job_ways', (tier, part)))
+    for n in [-1] + NS[tier]:
+        for origin in M.RK_ORIGINS:
+            out.append(('result-kinds-N%d-%s' % (n, origin), 'job_result_kinds', (tier, n, origin)))
     return out
 
 
@@ -951,6 +1057,14 @@ def replay(case):
         obs, log = run_text_under_quota(text, case['q'])
         return {'observed': repr((obs[:2], log['bad'][:1])), 'expected': 'MemoryQuotaExceededException iff the literal is larger than the quota; never handed to a function when larger',
                 'ok': not log['bad'] and not (sys.getsizeof('a' * case['n']) > case['q'] and obs[0] == 'v' and case['template'].startswith(('len(', 'isString(', 'str(')))}
+    if k == 'result-kind':
+        spec = (tuple(case['wrappers']), case['leaf'], case['size'], case['origin'])
+        obs = run_result_kind(spec, case['n'], case['t2l'], case['s2l'])
+        bad = judge_result_kind(spec, case['n'], case['t2l'], case['s2l'], obs)
+        return {'text': M.rk_text(spec), 'observed': repr(_short(obs)),
+                'expected': 'CollectionTooLargeException' if M.rk_too_large(spec, case['n'])
+                else repr(M.rk_image(spec, case['t2l'], case['s2l'])),
+                'ok': bad in (None, 'ood'), 'key': bad[0] if isinstance(bad, tuple) else None}
     if k == 'key-shape':
         kshape = (tuple(case['wrappers']), case['key'], case['size'])
         obs, pulls = run_key_shape(kshape, case['n'], case['t2l'], case['s2l'], case['legacy'], case.get('form', 'data'))
